@@ -84,6 +84,9 @@ fn run_case(seed: u64, index: u64, rep: &mut Report, want: &[&str]) {
     let steps = r.range(6, 18);
     let fired = Arc::new(AtomicU64::new(0));
     let mut subs = vec![];
+    // notification: per (replica, quotation) an observer registered as soon as the quotation exists there, the ids it showed after the
+    // previous step and the observer's call count at that time
+    let mut watch: std::collections::BTreeMap<(usize, usize), (Arc<AtomicU64>, Option<Vec<(u64, u32)>>, u64)> = std::collections::BTreeMap::new();
     for step in 0..steps {
         let i = r.below(nrep as u64) as usize;
         let cand: Vec<usize> = (0..msgs.len()).filter(|m| !delivered[i].contains(m)).collect();
@@ -193,9 +196,44 @@ fn run_case(seed: u64, index: u64, rep: &mut Report, want: &[&str]) {
                         "units": units.iter().map(|u| format!("{:x}:{:x}{}", u.0, u.1, if u.2 { "" } else { "~" })).collect::<Vec<_>>().join(",")}));
                 }
             }
-            for q in &quotes {
+            for (qi, q) in quotes.iter().enumerate() {
                 let w = match m.get(&txn, &q.key) { Some(Out::YWeakLink(w)) => w, _ => continue };
                 rep.add("quote_dereferences", 1);
+                // ---- observers of a quotation are notified when content inside its range changes
+                {
+                    let ids_now: Option<Vec<(u64, u32)>> = {
+                        let us: Vec<((u64, u32), bool)> = if q.root == ROOT_ARRAY { units_of_root(&vs, ROOT_ARRAY).iter().map(|u| ((u.0, u.1), u.2)).collect() } else { live_values_text(&vs, ROOT_TEXT).iter().map(|u| (u.0, u.1)).collect() };
+                        let si = match q.start { Some((id, _)) => us.iter().position(|u| u.0 == id), None => Some(0) };
+                        let ei = match q.end { Some((id, _)) => us.iter().position(|u| u.0 == id), None => Some(us.len().saturating_sub(1)) };
+                        match (si, ei) { (Some(si), Some(ei)) => {
+                            let lo = match q.start { Some((_, incl)) => if incl { si } else { si + 1 }, None => 0 };
+                            let hi = match q.end { Some((_, incl)) => if incl { ei + 1 } else { ei }, None => us.len() };
+                            Some(if lo < hi { us[lo..hi].iter().filter(|u| u.1).map(|u| u.0).collect() } else { vec![] }) }, _ => None }
+                    };
+                    match watch.get_mut(&(ri, qi)) {
+                        None => {
+                            let f = Arc::new(AtomicU64::new(0)); let f2 = f.clone();
+                            if q.root == ROOT_ARRAY { let wr: WeakRef<ArrayRef> = WeakRef::from(w.clone()); subs.push(wr.observe(move |_, _| { f2.fetch_add(1, Ordering::SeqCst); })); }
+                            else { let wr: WeakRef<TextRef> = WeakRef::from(w.clone()); subs.push(wr.observe(move |_, _| { f2.fetch_add(1, Ordering::SeqCst); })); }
+                            watch.insert((ri, qi), (f, ids_now, 0));
+                        }
+                        Some((f, before, seen)) => {
+                            let calls = f.load(Ordering::SeqCst);
+                            if let (Some(b), Some(n)) = (before.as_ref(), ids_now.as_ref()) {
+                                if b != n {
+                                    rep.add("quoted_range_changes_observed", 1);
+                                    if calls == *seen {
+                                        let added: Vec<String> = n.iter().filter(|x| !b.contains(x)).map(|x| format!("{:x}:{:x}", x.0, x.1)).collect();
+                                        let removed: Vec<String> = b.iter().filter(|x| !n.contains(x)).map(|x| format!("{:x}:{:x}", x.0, x.1)).collect();
+                                        fails.push(json!({"property": "C20", "class": if q.start.is_none() || q.end.is_none() { "quotation-without-a-lower-or-upper-bound-misses-a-notification" } else if b.is_empty() { "quotation-that-showed-nothing-misses-a-notification" } else if removed.is_empty() { "quotation-observer-not-notified-of-an-insertion-inside-the-range" } else if added.is_empty() { "quotation-observer-not-notified-of-a-removal-inside-the-range" } else { "quotation-observer-not-notified-of-a-change-inside-the-range" },
+                                            "quote": q.key, "range": q.range, "root": q.root, "replica": ri, "step": step, "acting_replica": i, "added": added, "removed": removed}));
+                                    }
+                                }
+                            }
+                            *before = ids_now; *seen = calls;
+                        }
+                    }
+                }
                 if q.root == ROOT_ARRAY {
                     let units = units_of_root(&vs, ROOT_ARRAY);
                     // expected: live units between the boundary units
@@ -252,7 +290,7 @@ fn run_case(seed: u64, index: u64, rep: &mut Report, want: &[&str]) {
 }
 
 pub fn run(prop: &str, tier: &str, seed: u64, workers: usize) -> Report {
-    let n = if tier == "thorough" { 40000 } else { 3000 };
+    let n = if tier == "thorough" { 40000 } else { 8000 };
     let want: Vec<&str> = vec![prop];
     let mut total = parallel(workers, |w, nw| {
         let mut rep = Report::default();
